@@ -381,3 +381,282 @@ class TerminationMonitor(Monitor):
     def outcome(self, world):
         conn = world.conns[0]
         return 'closed:%d%d init:%d%d' % (conn.closed[0], conn.closed[1], self.initiated['A'], self.initiated['B'])
+
+
+class NegotiationMonitor(Monitor):
+    '''C14 (a): once both SESS_INITs are exchanged the D-Bus view of the
+    session parameters shows min(keepalive) and the peer's announced values.'''
+    name = 'negotiation'
+    prop = 'C14'
+
+    def __init__(self, prop='C14'):
+        self.prop = prop
+        self.checked = {'A': False, 'B': False}
+
+    def on_bus(self, world, proc, rec):
+        out = []
+        if rec[0] == 'signal' and rec[3] == 'session_state_changed' and str(rec[4][0]) == 'established':
+            side = proc.name
+            peer = other(side)
+            prm = world.params
+            res = world.bus_call(proc, PATH, 'get_session_parameters', iface=IFACE)
+            proc.bus.drain_records()
+            self.checked[side] = True
+            if res[0] != 'ok':
+                return [Violation(self.prop, self.name, 'session-parameters-unavailable', dict(), repr(res))]
+            got = {str(k): v for (k, v) in dict(res[1]).items()}
+            want_ka = min(prm['keepalive']['A'], prm['keepalive']['B'])
+            clamp = lambda v: min(2 ** 31 - 1, v)
+            want = dict(keepalive=want_ka, peer_nodeid='dtn://%s/' % peer.lower(),
+                        peer_segment_mru=clamp(prm['seg_mru'][peer]), peer_transfer_mru=clamp(2 ** 64 - 1))
+            for (key, val) in want.items():
+                if key not in got or got[key] != val:
+                    out.append(Violation(self.prop, self.name, 'negotiated-parameter-wrong', dict(parameter=key),
+                                         '%s reports %s=%r, expected %r (keepalives %r)' % (side, key, got.get(key), val, prm['keepalive'])))
+        return out
+
+
+class TimerMonitor(Monitor):
+    '''C14 (b,c): KEEPALIVE exactly when the negotiated interval has elapsed
+    since the endpoint last sent anything; SESS_TERM(idle timeout) exactly when
+    the configured idle time elapsed without traffic either way.  Time only
+    passes in quiescent states (zero-time computation), so "elapsed" is exact.'''
+    name = 'timers'
+    prop = 'C14'
+
+    def __init__(self, prop='C14'):
+        self.prop = prop
+        self.parser = [T.StreamParser(), T.StreamParser()]
+        self.last_tx = [None, None]      # virtual time of the last octets written by side i
+        self.last_rx = [None, None]      # virtual time octets last arrived for side i
+        self.established = [False, False]
+        self.term_sent = [False, False]
+        self.keepalives = [0, 0]
+        self.prev_len = [0, 0]
+        self.quiet_at_decision = [None, None]
+
+    def _v(self, world, kind, sig, detail):
+        return Violation(self.prop, self.name, kind, sig, detail)
+
+    def on_bus(self, world, proc, rec):
+        if rec[0] == 'signal' and rec[3] == 'session_state_changed' and str(rec[4][0]) == 'established':
+            self.established[SIDES.index(proc.name)] = True
+        if rec[0] == 'signal' and rec[3] == 'session_state_changed' and str(rec[4][0]) == 'ending':
+            # the moment the endpoint decided to terminate
+            idx = SIDES.index(proc.name)
+            now = world.clock.now_us
+            self.quiet_at_decision[idx] = now - max(x for x in (self.last_tx[idx], self.last_rx[idx], 0) if x is not None)
+        return ()
+
+    def on_wire(self, world, conn, side, data):
+        out = []
+        now = world.clock.now_us
+        prm = world.params
+        ka = min(prm['keepalive']['A'], prm['keepalive']['B']) * 10 ** 6
+        prev_tx = self.last_tx[side]
+        for msg in self.parser[side].feed(data):
+            who = SIDES[side]
+            if msg['kind'] == 'KEEPALIVE':
+                self.keepalives[side] = min(self.keepalives[side] + 1, 3)
+                if ka == 0:
+                    out.append(self._v(world, 'keepalive-while-disabled', dict(), who))
+                elif prev_tx is not None and now - prev_tx != ka:
+                    out.append(self._v(world, 'keepalive-at-wrong-time', dict(),
+                                       '%s sent KEEPALIVE %d us after its previous transmission, interval is %d us' % (who, now - prev_tx, ka)))
+            if msg['kind'] == 'SESS_TERM':
+                self.term_sent[side] = True
+                if msg['reason'] == 1 and not (msg['flags'] & T.TERM_REPLY):
+                    idle = prm['idle'][who] * 10 ** 6
+                    quiet = self.quiet_at_decision[side]
+                    if idle == 0 or quiet != idle:
+                        out.append(self._v(world, 'idle-timeout-at-wrong-time', dict(),
+                                           '%s sent SESS_TERM(idle) after %d us of silence, idle time %d us' % (who, quiet, idle)))
+        self.last_tx[side] = now
+        return out
+
+    def on_event(self, world, event):
+        # octets count as received when the endpoint reads them from its socket
+        conn = world.conns[0]
+        for (idx, who) in enumerate(SIDES):
+            cur = len(conn.buf[idx])
+            if event[0] == 'run' and event[1] == who and cur < self.prev_len[idx]:
+                self.last_rx[idx] = world.clock.now_us
+            self.prev_len[idx] = cur
+        return ()
+
+    def check_state(self, world):
+        out = []
+        # only in quiescent states has every due timer had its chance to run
+        for proc in world.procs.values():
+            if world.runnable(proc):
+                return out
+        now = world.clock.now_us
+        prm = world.params
+        conn = world.conns[0]
+        ka = min(prm['keepalive']['A'], prm['keepalive']['B']) * 10 ** 6
+        for (idx, who) in enumerate(SIDES):
+            if not self.established[idx] or conn.closed[idx]:
+                continue
+            if ka and self.last_tx[idx] is not None and now - self.last_tx[idx] >= ka and not conn.closed[1 - idx]:
+                out.append(self._v(world, 'keepalive-missed', dict(),
+                                   '%s has been silent for %d us, negotiated keepalive %d us' % (who, now - self.last_tx[idx], ka)))
+            idle = prm['idle'][who] * 10 ** 6
+            if idle and not self.term_sent[idx]:
+                quiet = now - max(x for x in (self.last_tx[idx], self.last_rx[idx], 0) if x is not None)
+                if quiet >= idle:
+                    out.append(self._v(world, 'idle-timeout-missed', dict(),
+                                       '%s saw no traffic for %d us, idle time %d us, and did not start termination' % (who, quiet, idle)))
+        return out
+
+    def __verif_canon__(self, c):
+        now = c.now_us
+        c.walk([None if x is None else x - now for x in self.last_tx])
+        c.walk([None if x is None else x - now for x in self.last_rx])
+        c.walk(self.established)
+        c.walk(self.term_sent)
+        c.walk(self.keepalives)
+        c.walk(self.prev_len)
+        c.walk(self.quiet_at_decision)
+        c.walk(self.parser)
+
+
+class DbusViewMonitor(Monitor):
+    '''C18: every signal / return value fits its declared signature; the
+    receive queue lists exactly announced-and-not-popped ids, popping yields
+    the data exactly once, the send queue lists exactly queued-and-not-finished
+    ids, at most one finished signal per transfer, and the idle indication is
+    true only when nothing is queued, in progress or unacknowledged (and true
+    once everything has drained).'''
+    name = 'dbus-view'
+    prop = 'C18'
+
+    def __init__(self, prop='C18'):
+        self.prop = prop
+        self.announced = {'A': [], 'B': []}     # (id, length) from recv_bundle_finished
+        self.popped = {'A': [], 'B': []}
+        self.queued = {'A': [], 'B': []}        # (id, data hex)
+        self.started = {'A': [], 'B': []}
+        self.finished = {'A': [], 'B': []}      # (id, result)
+        self.rx_started = {'A': [], 'B': []}
+        self.pending_errors = []
+
+    def _v(self, world, kind, sig, detail):
+        return Violation(self.prop, self.name, kind, sig, detail)
+
+    def on_bus(self, world, proc, rec):
+        out = []
+        side = proc.name
+        if rec[0] == 'signal-marshal-error':
+            out.append(self._v(world, 'signal-does-not-fit-signature', dict(signal=rec[2], signature=rec[3]),
+                               '%s: %s(%s) with arguments %r: %s: %s' % (side, rec[2], rec[3], rec[6], rec[4], rec[5])))
+        elif rec[0] == 'return-marshal-error':
+            out.append(self._v(world, 'return-does-not-fit-signature', dict(method=rec[2], signature=rec[3]),
+                               '%s: %s -> %s: %s: %s' % (side, rec[2], rec[3], rec[4], rec[5])))
+        elif rec[0] == 'signal':
+            member = rec[3]
+            args = rec[4]
+            if member == 'recv_bundle_finished':
+                self.announced[side].append((str(args[0]), int(args[1])))
+            elif member == 'recv_bundle_started':
+                self.rx_started[side].append(str(args[0]))
+            elif member == 'send_bundle_started':
+                self.started[side].append(str(args[0]))
+            elif member == 'send_bundle_finished':
+                bid = str(args[0])
+                if any(b == bid for (b, _r) in self.finished[side]):
+                    out.append(self._v(world, 'transfer-finished-twice', dict(), '%s id %s' % (side, bid)))
+                self.finished[side].append((bid, str(args[2])))
+        return out
+
+    def on_user(self, world, side, op, res):
+        out = []
+        if op[0] == 'send' and res[0] == 'ok':
+            self.queued[side].append((str(res[1]), op[1]))
+        elif op[0] == 'pop':
+            bid = str(op[1])
+            avail = [b for (b, _l) in self.announced[side]]
+            should = bid in avail and bid not in self.popped[side]
+            if should:
+                if res[0] != 'ok':
+                    out.append(self._v(world, 'announced-bundle-cannot-be-popped', dict(), '%s pop %s -> %r' % (side, bid, res)))
+                else:
+                    self.popped[side].append(bid)
+                    data = bytes(res[1]).hex()
+                    sender = other(side)
+                    want = dict(self.queued[sender]).get(bid)
+                    # transfer ids are per sender, counted from 1 in queue order
+                    if want is None or want != data:
+                        out.append(self._v(world, 'popped-data-differs', dict(),
+                                           '%s popped %s = %r, %s queued %r' % (side, bid, data, sender, self.queued[sender])))
+            elif res[0] == 'ok':
+                out.append(self._v(world, 'pop-succeeded-without-announcement', dict(),
+                                   '%s pop %s returned data; announced %r popped %r' % (side, bid, avail, self.popped[side])))
+        return out
+
+    def check_state(self, world):
+        out = []
+        conn = world.conns[0]
+        for (idx, side) in enumerate(SIDES):
+            proc = world.procs[side]
+            if PATH not in proc.bus._objects:
+                continue
+            rq = world.bus_call(proc, PATH, 'recv_bundle_get_queue', iface=IFACE)
+            sq = world.bus_call(proc, PATH, 'send_bundle_get_queue', iface=IFACE)
+            idle = world.bus_call(proc, PATH, 'is_sess_idle', iface=IFACE)
+            state = world.bus_call(proc, PATH, 'get_session_state', iface=IFACE)
+            out.extend(self._drain(world, proc))
+            if rq[0] != 'ok' or sq[0] != 'ok' or idle[0] != 'ok' or state[0] != 'ok':
+                out.append(self._v(world, 'query-failed', dict(), '%s: %r %r %r %r' % (side, rq, sq, idle, state)))
+                continue
+            want_rq = sorted(b for (b, _l) in self.announced[side] if b not in self.popped[side])
+            if sorted(str(x) for x in rq[1]) != want_rq:
+                out.append(self._v(world, 'receive-queue-differs', dict(),
+                                   '%s recv queue %r, announced-and-not-popped %r' % (side, list(rq[1]), want_rq)))
+            fin = [b for (b, _r) in self.finished[side]]
+            want_sq = sorted(b for (b, _d) in self.queued[side] if b not in fin)
+            if sorted(str(x) for x in sq[1]) != want_sq:
+                out.append(self._v(world, 'send-queue-differs', dict(),
+                                   '%s send queue %r, queued-and-not-finished %r' % (side, list(sq[1]), want_sq)))
+            if bool(idle[1]):
+                busy = []
+                if want_sq:
+                    busy.append('transfers %r queued/unfinished' % (want_sq,))
+                part = [b for b in self.rx_started[side] if b not in [a for (a, _l) in self.announced[side]]]
+                if part:
+                    busy.append('inbound transfer %r in progress' % (part,))
+                if busy:
+                    out.append(self._v(world, 'idle-indication-while-busy', dict(), '%s: %s' % (side, '; '.join(busy))))
+        return out
+
+    def _drain(self, world, proc):
+        out = []
+        for rec in proc.bus.drain_records():
+            if rec[0] in ('signal-marshal-error', 'return-marshal-error'):
+                out.extend(self.on_bus(world, proc, rec))
+        return out
+
+    def check_final(self, world):
+        out = []
+        conn = world.conns[0]
+        for (idx, side) in enumerate(SIDES):
+            proc = world.procs[side]
+            fin = [b for (b, _r) in self.finished[side]]
+            for bid in self.started[side]:
+                if fin.count(bid) != 1 and not conn.closed[idx]:
+                    pass
+            if PATH in proc.bus._objects and not conn.closed[idx]:
+                # everything drained and the session still up: idle must be reported
+                pend = [b for (b, _d) in self.queued[side] if b not in fin]
+                part = [b for b in self.rx_started[side] if b not in [a for (a, _l) in self.announced[side]]]
+                state = world.bus_call(proc, PATH, 'get_session_state', iface=IFACE)
+                idle = world.bus_call(proc, PATH, 'is_sess_idle', iface=IFACE)
+                proc.bus.drain_records()
+                if not pend and not part and state[0] == 'ok' and str(state[1]) == 'established' \
+                        and world.script_pos[side] >= len(world.params['scripts'][side]) and not conn.buf[idx]:
+                    if idle[0] != 'ok' or not bool(idle[1]):
+                        out.append(self._v(world, 'idle-indication-never-true', dict(), '%s: %r' % (side, idle)))
+        return out
+
+    def outcome(self, world):
+        return 'pop:%d,%d fin:%d,%d' % (len(self.popped['A']), len(self.popped['B']),
+                                        len(self.finished['A']), len(self.finished['B']))
